@@ -447,9 +447,14 @@ pub fn drain(max_rounds: usize) -> bool {
   next_due().is_none()
 }
 
+/// one tick of virtual time = 1 ns (so that every unit-truncation of a small
+/// delay - as_micros, as_millis, as_secs - changes the behaviour)
 pub fn ticks(n: u64) -> Duration {
-  Duration::from_millis(n)
+  Duration::from_nanos(n)
 }
 pub fn as_ticks(d: Duration) -> u64 {
-  d.as_millis() as u64
+  d.as_nanos() as u64
 }
+/// one hour / ten minutes in ticks
+pub const HOUR: u64 = 3_600_000_000_000;
+pub const TOL: u64 = 600_000_000_000;
